@@ -735,3 +735,50 @@ Qed.
 Lemma single_endpoint_unreachable :
   quorum 3 1 = true /\ reachable [1] [1] = false /\ reachable (all_members 3) [1] = true.
 Proof. vm_compute. auto. Qed.
+
+(** * the linear-time comparison used for big contents *)
+
+Lemma all_in_same_keys d2 : NoDup (map fst d2) ->
+  forall t1 t2, map fst t1 = map fst t2 -> incl t2 d2 -> all_in t1 d2 = list_eqb kv_eqb t1 t2.
+Proof.
+  intros ND. induction t1 as [|[k v1] t1 IH]; intros [|[k2 v2] t2] E I; try discriminate; [reflexivity|].
+  simpl in E. inversion E as [[E1 E2]]. subst k2. simpl.
+  rewrite (alookup_nodup k v2 d2 ND) by (apply I; left; reflexivity).
+  unfold kv_eqb at 1. simpl. rewrite String.eqb_refl. simpl.
+  rewrite (IH t2 E2); [reflexivity|]. intros x Ix. apply I. right. exact Ix.
+Qed.
+
+Lemma fast_equal_eq d1 d2 : wf d1 -> fast_equal d1 d2 = is_data_equal d1 d2.
+Proof.
+  intros W. unfold fast_equal.
+  destruct (Nat.eqb (List.length d1) (List.length d2)) eqn:EL; simpl;
+    [|unfold is_data_equal; rewrite EL; reflexivity].
+  destruct (list_eqb String.eqb (map fst d1) (map fst d2)) eqn:E; [|reflexivity].
+  apply (list_eqb_spec String.eqb String.eqb_eq) in E.
+  unfold is_data_equal, content_eqb.
+  assert (L : List.length d1 = List.length d2) by (rewrite <- (map_length fst d1), E, map_length; reflexivity).
+  rewrite L, Nat.eqb_refl. simpl. symmetry. apply all_in_same_keys.
+  - unfold wf in W. rewrite <- E. exact W.
+  - exact E.
+  - apply incl_refl.
+Qed.
+
+Lemma check_from_fast_eq fin obs : forall cur rest d,
+  wf d -> Forall wf (cur :: rest) ->
+  check_from_fast fin cur rest d obs = check_from fin cur rest d obs.
+Proof.
+  induction obs as [|x obs' IH]; intros cur rest d WD WF; simpl.
+  - destruct fin; [apply fast_equal_eq, WD| reflexivity].
+  - rewrite (fast_equal_eq d x WD). destruct (find_state x cur rest) as [[c' r']|] eqn:F; [|reflexivity].
+    destruct (find_state_some _ _ _ _ _ F) as [X [mid [-> L]]].
+    assert (WC : wf c').
+    { rewrite Forall_forall in WF. apply WF. rewrite L.
+      pose proof (last_in_cons mid cur) as I. destruct I as [I|I]; [left; exact I|].
+      right. apply in_or_app. left. exact I. }
+    f_equal. subst x. apply IH; [exact WC|].
+    constructor; [exact WC|]. inversion WF; subst. eapply Forall_app_r; eassumption.
+Qed.
+
+Theorem check_trace_fast_eq fin s0 ws obs :
+  Forall wf (s0 :: ws) -> check_trace_fast fin s0 ws obs = check_trace fin s0 ws obs.
+Proof. intros WF. apply check_from_fast_eq; [apply wf_nil| exact WF]. Qed.
